@@ -601,7 +601,7 @@ func (ex *Exec) mapOrder(n int) []int {
 	if n <= 1 {
 		return idx
 	}
-	if n <= 3 && !ex.W.fixedMapOrder {
+	if n <= 3 && !ex.fixedOrder() {
 		// Fisher-Yates driven by choices
 		for i := 0; i < n-1; i++ {
 			j := i + ex.choice(n-i)
@@ -609,7 +609,7 @@ func (ex *Exec) mapOrder(n int) []int {
 		}
 		return idx
 	}
-	if ex.W.fixedMapOrder {
+	if ex.fixedOrder() {
 		return idx
 	}
 	if ex.choice(2) == 1 {
@@ -693,7 +693,7 @@ func (ex *Exec) next(it *iterV, x *ssa.Next) Value {
 				continue
 			}
 			it.seen[e] = true
-			if ex.W.fixedMapOrder || ex.choice(2) == 0 {
+			if ex.fixedOrder() || ex.choice(2) == 0 {
 				continue // not visited
 			}
 			return TupleV{trueT, e.K, ex.copyVal(e.C.V)}
